@@ -32,6 +32,9 @@ inductive Elem where
   | nodeId (n : Nat)                  -- NodeId (17), namespace 0 numeric
   | qname                             -- QualifiedName (20), content irrelevant
   | ltext                             -- LocalizedText (21), content irrelevant
+  | opaque (ty : Nat) (tag : Nat)     -- every other scalar kind: DateTime 13, Guid 14, XmlElement 16,
+                                      -- ExpandedNodeId 18, StatusCode 19, ExtensionObject 22, DataValue 23,
+                                      -- Variant 24, DiagnosticInfo 25; `tag` identifies the payload
 deriving Repr, DecidableEq
 
 inductive Val where
@@ -48,14 +51,18 @@ def Elem.ty : Elem → Nat
   | .nodeId _ => 17
   | .qname => 20
   | .ltext => 21
+  | .opaque t _ => t
+
+/-- `scalar_data_type` as an option: an ExtensionObject (22) has no data type there (`_ => None`) -/
+def Elem.dty (e : Elem) : Option Nat := if e.ty = 22 then none else some e.ty
 
 def Val.scalarTy : Val → Option Nat
-  | .one e => some e.ty
+  | .one e => e.dty
   | _ => none
 
 /-- `array_data_type`: type of the FIRST element; none for an empty array -/
 def Val.arrayTy : Val → Option Nat
-  | .arr _ (e :: _) => some e.ty
+  | .arr _ (e :: _) => e.dty
   | _ => none
 
 /-! ### NumericRange -/
@@ -227,6 +234,7 @@ def read := readWith true
 
 def parentDT : Nat → Option Nat
   | 1 => some 24 | 12 => some 24 | 15 => some 24 | 26 => some 24 | 17 => some 24 | 20 => some 24 | 21 => some 24
+  | 13 => some 24 | 14 => some 24 | 16 => some 24 | 18 => some 24 | 19 => some 24 | 23 => some 24 | 25 => some 24
   | 27 => some 26 | 28 => some 26 | 10 => some 26 | 11 => some 26
   | 2 => some 27 | 4 => some 27 | 6 => some 27 | 8 => some 27
   | 3 => some 28 | 5 => some 28 | 7 => some 28 | 9 => some 28
@@ -246,11 +254,11 @@ def validate (var : Var) (x : Val) : Bool :=
   match x with
   | .empty => true
   | .one e =>
-    isSubDT 4 e.ty var.dataType ||
+    (e.ty != 22 && isSubDT 4 e.ty var.dataType) ||
       (match e with
        | .bstr _ => var.dataType = 3 && byteArrayRank var.rank
        | _ => false)
-  | .arr _ (e :: _) => isSubDT 4 e.ty var.dataType
+  | .arr _ (e :: _) => e.ty != 22 && isSubDT 4 e.ty var.dataType
   | .arr _ [] => false
 
 /-- `Variant::to_byte_array` applied by `set_value` for Byte arrays -/
